@@ -6,12 +6,14 @@ From Verif Require Import Base.Prelude Base.Graph Model.Sorter Model.Expr Model.
 Inductive effect :=
 | EWrite (n c : N)              (* Path.write_text finished for product n *)
 | ECommit (t k s : N)           (* row (t, k) := s committed *)
+| EPurge (t : N) (ks : list N)  (* rows (t, k) with k outside ks deleted, committed (F28) *)
 | EReport (t : N) (o : outcome) (* the task's report has been logged *).
 
 Definition apply_effect (w : world) (e : effect) : world :=
   match e with
   | EWrite n c => mkWorld (upd n c (fs w)) (db w)
   | ECommit t k s => mkWorld (fs w) (dbupd t k s (db w))
+  | EPurge t ks => mkWorld (fs w) (dbpurge t ks (db w))
   | EReport _ _ => w
   end.
 
@@ -33,6 +35,7 @@ Section Eff.
     end.
 
   Definition commit_effects (E : list edge) (w : world) (t : task) : list effect :=
+    EPurge (tid t) (neighbours E t) ::
     flat_map (fun k => match state_of w t k with
                        | Some s => [ECommit (tid t) k s]
                        | None => [] end) (neighbours E t).
